@@ -70,7 +70,10 @@ def run(rep, tier, seed, replay):
             # 2 levels per nested alternation, 3 per nested repetition or two-branch alternation
             depth = max((len(m0.group(0)) for m0 in re.finditer(r"(?:\{a,)+|[{<]+", e)), default=0)
             depth = depth // 3 if e.startswith("{a,") else depth
-            mnew_panic = depth >= 125
+            # beyond the regex parser's nesting limit the build fails with a compile error (repair 13; a panic before)
+            mnew_panic = False
+            if depth >= 125 and new.startswith("panic"):
+                mnew_panic = True
         if new.startswith("panic"):
             rep.stats["new:" + new] += 1
             site = new.split(":", 1)[1]
